@@ -17,7 +17,7 @@ EPS = np.finfo(float).eps
 AMPLIFY = 200.0
 SHIFTS = [-5.0, 1e-3, 1.0, 123.456, 1e4]
 GRIDS = [("uniform", 20, 2.0), ("quadratic", 25, 3.0), ("geometric", 25, 0), ("irregular", 20, 3.0),
-         ("integer", 12, 0)]
+         ("integer", 12, 0), ("drift", 101, 2.0)]
 # non-integer pressures on purpose: an integer-dtype time grid must not leak its dtype into them
 CONFIGS = [("ideal", None, 1000.37, 8000.0), ("single", "T_ship_gas", 100.37, 8000.0),
            ("single", "T_ship_gas", 7900.37, 8000.0), ("single", "A_kink", 4000.37, 8000.0),
@@ -43,6 +43,15 @@ def cases(tier, seed):
                 if L != n:
                     out.append({"part": "bad-length", "cls": cls, "table": tab, "p_f": p_f, "p_i": p_i,
                                 "nx": 5, "n": n, "L": L})
+    # the interpolator on long runs: into depletion (late recovery increments far below 1e-6), a very fine grid
+    # (every increment tiny) and no drawdown at all (a flat curve)
+    for (cls, tab, p_f, p_i), (g, n, T) in itertools.product(CONFIGS, [("quadratic", 1200, 100.0), ("uniform", 1500, 1.5e-3),
+                                                                      ("geometric", 40, 0), ("quadratic", 60, 3.0)]):
+        if tab and tab.startswith("A_"):
+            tab = "S_zlin"
+        for pf in (p_f, p_i):
+            out.append({"part": "interp", "cls": cls, "table": tab or "S_ideal", "p_f": pf, "p_i": p_i, "nx": 30,
+                        "grid": g, "n": n, "T": T, "seed": seed})
     ops = ["rf", "rf_density", "rf_t", "interp", "sim"]
     for (cls, tab, p_f, p_i) in CONFIGS:
         for k in ((1, 2, 3, 4, 5) if tier == "thorough" else (1, 2, 3)):
@@ -139,6 +148,36 @@ def eval_badlen(case):
                              "was accepted", case=case)], "states": 1, "transitions": 1, "outcome": "accepted"}
 
 
+def eval_interp(case):
+    """The interpolator against the recovery curve of the same object, at every simulated time and outside them."""
+    t = sim.time_grid(case["grid"], case["n"], case["T"], case["seed"])
+    viol = []
+    states = 0
+    for dens in (False, True):
+        r = sim.make_reservoir(case["cls"], case["nx"], case["p_f"], case["p_i"], case["table"])
+        if dens and (case["cls"] == "ideal" or "density" not in r.fluid.pvt_props):
+            continue
+        r.simulate(t.copy())
+        rec = np.asarray(r.recovery_factor(density=dens), dtype=float).copy()
+        f = r.recovery_factor_interpolator()
+        at = np.asarray(f(t), dtype=float)
+        states += len(t)
+        bad = np.abs(at - rec) > 1e-15 + 4 * EPS * np.abs(rec)
+        if bad.any():
+            k = int(np.argmax(np.abs(at - rec)))
+            viol.append(V("interp/nodes", f"interpolator(density={dens}) at simulated time {t[k]!r} gives {at[k]!r}, "
+                          f"recovery there is {rec[k]!r} ({int(bad.sum())} of {len(t)} times differ)", case=case,
+                          observed=float(at[k]), expected=float(rec[k])))
+        before = np.asarray(f([t[0] - 1.0, t[0] - 1e-9, -1e300]), dtype=float)
+        after = np.asarray(f([t[-1] * (1 + 1e-9) + 1e-300, t[-1] + 5.0, 1e300]), dtype=float)
+        if not np.all(before == 0.0):
+            viol.append(V("interp/before", f"interpolator before the first time gives {before}", case=case))
+        if not np.all(after == rec[-1]):
+            viol.append(V("interp/after", f"interpolator after the last time gives {after}, final recovery {rec[-1]!r}",
+                          case=case))
+    return {"violations": viol, "states": states, "transitions": states, "outcome": "interp"}
+
+
 def eval_lifecycle(case):
     from bluebonnet.flow import IdealReservoir, SinglePhaseReservoir  # noqa: PLC0415
 
@@ -206,7 +245,7 @@ def eval_lifecycle(case):
 
 def evaluate(case):
     return {"shift": eval_shift, "const-schedule": eval_const, "bad-length": eval_badlen,
-            "lifecycle": eval_lifecycle}[case["part"]](case)
+            "lifecycle": eval_lifecycle, "interp": eval_interp}[case["part"]](case)
 
 
 def run(ctx):
